@@ -31,6 +31,10 @@ def _simplifications(spec):
         t = copy.deepcopy(s)
         t["knobs"]["do_timing"] = False
         out.append(("timing knob off", t))
+    if kn.get("clock_jumps"):
+        t = copy.deepcopy(s)
+        t["knobs"]["clock_jumps"] = []
+        out.append(("no wall-clock jumps", t))
     if s["kind"] == "api":
         for i, op in enumerate(s["ops"]):
             if op.get("helpers") and any(p.get("kind") != "ok" for p in op["helpers"]):
@@ -86,6 +90,10 @@ def _simplifications(spec):
             t = copy.deepcopy(s)
             t["session"]["stdin_errors"] = "surrogateescape"
             out.append(("stdin surrogateescape", t))
+        if sess.get("stderr_capacity") is not None and sess["stderr_capacity"] < 65536:
+            t = copy.deepcopy(s)
+            t["session"]["stderr_capacity"] = 65536
+            out.append(("64 KiB stderr pipe", t))
         if any(sess.get("thief", [])):
             t = copy.deepcopy(s)
             t["session"]["thief"] = []
